@@ -296,6 +296,23 @@ def main():
     return report(a.property, spec, a.tier, results, extra, t0)
 
 
+def in_scope(filt, fn, obligation=None):
+    """filt: "*" | [fn names] | {"fns": "*"|[...], "include": regex, "exclude": regex}"""
+    if filt == "*":
+        return True
+    if isinstance(filt, list):
+        return fn in filt
+    fns = filt.get("fns", "*")
+    if fns != "*" and fn not in fns:
+        return False
+    if obligation is not None:
+        if filt.get("include") and not re.search(filt["include"], obligation):
+            return False
+        if filt.get("exclude") and re.search(filt["exclude"], obligation):
+            return False
+    return True
+
+
 def report(pid, spec, tier, results, extra, t0):
     units = spec["units"]
     undecided, failures = [], []
@@ -304,7 +321,7 @@ def report(pid, spec, tier, results, extra, t0):
         for u in r["undecided"]:
             undecided.append(f"{r['unit']}: {u}")
         for f in r["failures"]:
-            if filt == "*" or f["fn"] in filt:
+            if in_scope(filt, f["fn"], f["obligation"]):
                 failures.append(f)
     for e in extra:
         undecided += e.get("undecided", [])
@@ -346,7 +363,7 @@ def report(pid, spec, tier, results, extra, t0):
         filt = units[r["unit"]]
         for m in r["metas"]:
             if m["kind"] == "fn":
-                inscope = filt == "*" or short_item(m["name"]) in filt
+                inscope = in_scope(filt, short_item(m["name"]))
                 clauses += m["woven_clauses"]
                 fuc.append({"unit": r["unit"], "function": m["name"], "file": m["file"], "lines": m["lines"],
                             "sha256": m["sha256"][:16], "rewrites": m["rewrites"],
